@@ -121,9 +121,8 @@ func (r Raw) Value() string {
 		return s
 
 	case asn1.TagUTCTime:
-		var t time.Time
-		_, err := asn1.Unmarshal(r.FullBytes, &t)
-		if err != nil {
+		t, ok := utcTime(r.Bytes)
+		if !ok {
 			return hex.EncodeToString(r.Bytes)
 		}
 		return t.UTC().Format("2006-01-02T15:04:05Z")
@@ -131,6 +130,31 @@ func (r Raw) Value() string {
 	default:
 		return hex.EncodeToString(r.Bytes)
 	}
+}
+
+// utcTime decodes the content octets of a UTCTime into the instant they denote, in UTC.
+// It accepts what encoding/asn1 accepts (YYMMDDhhmm[ss] followed by Z or +hhmm/-hhmm, the
+// years 50..99 being 19xx) but moves a year from 20xx to 19xx on the UTC clock:
+// encoding/asn1 does it on the value returned by time.Parse, which is in the local zone
+// of the process whenever the encoded offset is in use there, so that a value such as
+// 550701120000+0200 was a different instant under TZ=Europe/Berlin.
+func utcTime(b []byte) (time.Time, bool) {
+	s := string(b)
+	layout := "0601021504Z0700"
+	t, err := time.Parse(layout, s)
+	if err != nil {
+		layout = "060102150405Z0700"
+		t, err = time.Parse(layout, s)
+	}
+	if err != nil || t.Format(layout) != s {
+		return time.Time{}, false
+	}
+	century := t.Year() >= 2050 // on the clock the value is written in, like encoding/asn1
+	t = t.UTC()
+	if century {
+		t = t.AddDate(-100, 0, 0)
+	}
+	return t, true
 }
 
 // oidString renders the content octets of an OBJECT IDENTIFIER in dotted notation.
